@@ -201,6 +201,14 @@ inductive ReachableP (cap : Nat) : Net α → Prop
   | init : ReachableP cap (init cap)
   | step {p q} : ReachableP cap p → StepP p q → ReachableP cap q
 
+/-- The states of a pair that was created under a context that is ALREADY done and sent to at once: the cancel, then the
+sends that complete, all before the pump has taken its first step (the lock-step driver starts scripts with `pre=1
+presend=…` here; `Props/C08.preStart_reachable`: they are reachable states, so every theorem speaks about them). -/
+def preStart (cap : Nat) (vs : List α) : List (Net α) :=
+  vs.foldl (fun sts v => sts.flatMap fun p =>
+      ((envNext p (.send v)).filter fun qo => match qo.2 with | .ok => true | _ => false).map (·.1))
+    ((envNext (init cap) .cancel).map (·.1))
+
 /-- the value the pump holds between `<-in` and `enq` -/
 def held (p : Net α) : List α :=
   match p.pc with
